@@ -112,8 +112,9 @@ pub fn make_plan<M: ZooMsg + ?Sized>(d: &mut Decider, stats: &mut Stats, nspec: 
     big.fill(0);
     let default_size = M::default_in_place(&mut big).map(|m| m.size()).unwrap_or(M::MIN_SIZE);
     let base = default_size.max(M::MIN_SIZE).max(1);
-    let extras = [0usize, M::ALIGN, 8, 20, 40, 100, 250];
-    let extra = extras[d.weighted(St::Cfg, &[2, 2, 3, 4, 4, 3, 1])];
+    // up to 600 so that u8 length / offset types reach and cross their maximum (255)
+    let extras = [0usize, M::ALIGN, 8, 20, 40, 100, 250, 600];
+    let extra = extras[d.weighted(St::Cfg, &[4, 4, 6, 8, 8, 6, 2, 1])];
     let max_send = base + extra;
     let n_msgs = match nspec {
         // mostly short sequences; one run in eight a long one (many windows worth of stream)
@@ -149,7 +150,7 @@ pub fn make_plan<M: ZooMsg + ?Sized>(d: &mut Decider, stats: &mut Stats, nspec: 
     let mut anomalies: Vec<(Val, usize)> = Vec::new();
     for _ in 0..n_msgs {
         scratch_store[..cap].fill(0xA5);
-        let scale = [2usize, 8, 40, 260][d.weighted(St::Msgs, &[3, 4, 3, 1])];
+        let scale = [2usize, 8, 40, 260, 700][d.weighted(St::Msgs, &[6, 8, 6, 2, 1])];
         let val = M::gen(&mut Gen::new(d, St::Msgs, scale));
         let use_default = d.chance(St::Msgs, 1, 12);
         // fit: largest clamp that emplaces and whose size() <= max_send
